@@ -10,6 +10,10 @@ from ..harness import Clause, Prop, require
 from ..oracles import CONFIGS, METRICS, relevant_scores, ulp_step
 
 
+AXIS_PAIRS = [(x, y) for x in ("fpr", "tnr") for y in ("tpr", "fnr")] + \
+             [(x, y) for x in ("tpr", "fnr") for y in ("fpr", "tnr")]
+
+
 @st.composite
 def _cases(draw, max_size=9):
     s = draw(gen.score_sets(min_pos=1, min_neg=1, max_size=max_size,
@@ -83,6 +87,14 @@ def check(case):
         p0, p1 = float(V.auc(l_, u_)), float(M.auc(l_, u_))
         require(abs(p0 - p1) <= 1e-12, "easy:partial-auc",
                 f"{ctx}: auc({l_!r},{u_!r}) virtual {p0!r} materialised {p1!r}")
+        # ... on every pair of axes that plots a rate of one class against a rate of the other
+        # (ROC, DET and their mirror images)
+        for xa, ya in AXIS_PAIRS:
+            for lims in ((), (l_, u_)):
+                q0, q1 = float(V.auc(*lims, x_axis=xa, y_axis=ya)), float(M.auc(*lims, x_axis=xa, y_axis=ya))
+                require(abs(q0 - q1) <= 1e-12, "easy:auc-axes",
+                        lambda: f"{ctx}: auc({', '.join(map(repr, lims))}, x_axis={xa}, y_axis={ya}) virtual {q0!r} "
+                                f"materialised {q1!r}")
         for mt in METRICS:
             rel = relevant_scores(mt, pos, neg)
             rmin, rmax = min(rel), max(rel)
@@ -112,8 +124,9 @@ def check(case):
 
 # ------------------------------------------------------------------ a few easy samples next to very many scores
 def _large_cases(tier):
-    sizes = [(300_000, 300_000, 2, 3), (150_001, 40, 1, 0)] if tier == "quick" else \
-        [(300_000, 300_000, 2, 3), (150_001, 40, 1, 0), (40, 500_000, 0, 1), (1_000_000, 20, 5, 5)]
+    sizes = [(300_000, 300_000, 2, 3), (150_001, 40, 1, 0), (50_000, 40, 950_000, 0)] if tier == "quick" else \
+        [(300_000, 300_000, 2, 3), (150_001, 40, 1, 0), (40, 500_000, 0, 1), (1_000_000, 20, 5, 5),
+         (50_000, 40, 950_000, 0), (40, 60_000, 3, 500_000), (100_000, 100_000, 400_000, 300_000)]
     for n, m, k, e in sizes:
         yield dict(n=n, m=m, k=k, e=e)
 
@@ -139,8 +152,12 @@ def check_large(case):
             rel = relevant_scores(mt, [pos[0], pos[-1]], [neg[0], neg[-1]])
             rmin, rmax = min(rel), max(rel)
             Nm = {"tpr": n + k, "fnr": n + k, "tnr": m + e, "fpr": m + e}.get(mt, T)
+            # ... incl. the first few scored samples beyond the share the easy samples account for
+            edge = [(E + j) / Nm for E in (k, e, k + e) for j in (1, 2, 3, 7, 100)]
+            edge += [1 - x for x in edge]
             targets = np.asarray(sorted(set([j / Nm for j in (1, 2, 3, 7, 100, Nm // 3, Nm // 2, Nm - 100, Nm - 7,
-                                                             Nm - 3, Nm - 2, Nm - 1)] + [0.25, 0.5, 0.9])))
+                                                             Nm - 3, Nm - 2, Nm - 1)] + [0.25, 0.5, 0.9]
+                                            + [x for x in edge if 0 <= x <= 1])))
             tm = np.asarray(getattr(M, "threshold_at_" + mt)(targets), dtype=float)
             tv = np.asarray(getattr(V, "threshold_at_" + mt)(targets), dtype=float)
             ok = (tm >= rmin) & (tm <= rmax)
@@ -165,9 +182,9 @@ PROP = Prop(
           "[min,max] of the relevant scored samples gives the same threshold (1e-9*range). "
           "Non-trivial = k+m>0 and at least one eligible target."),
     clauses=[Clause("few_easy_many_scores", check_large, kind="enum", cases=_large_cases, quick_shards=2, shards=4,
-                    min_nontrivial=2, doc="1-5 easy samples next to 1.5e5-1e6 scored samples"),
+                    min_nontrivial=2, doc="1-5 or 5e5-1e6 easy samples next to 4e4-1e6 scored samples"),
              Clause("virtual_vs_materialised", check, strategy=lambda tier: _cases(9 if tier == "quick" else 25), quick=300, thorough=12000,
                     quick_shards=4, min_nontrivial=150, doc="differential: virtual vs materialised")],
 )
 
-RULE_EXTRA = ('the virtual and the materialised object are asked in alternating order with one shared target array.')
+RULE_EXTRA = ('full and partial AUC on all 8 axis pairs that plot a rate of one class against a rate of the other; float32 / long-double containers; the virtual and the materialised object are asked in alternating order with one shared target array.')
